@@ -1,6 +1,489 @@
 package main
 
-import tl "verif/harness/tracelib"
+// Session part of C45: schedules of spec/net/Discv5.tla executed on real v5wire.Codec instances.
+// One simNode per model node; the driver plays the packet layer above the codec (it keeps the last
+// Unknown nonce and the last decoded WHOAREYOU per peer, exactly the `unk` and `got` variables of the
+// specification) and the network/adversary (wire = every packet ever produced, tampered copies,
+// redirection, replay).
 
-func runSessions(path string, sum *tl.Summary)                            { tl.Fatal("not yet") }
-func runSessRecord(path string, seed int64, n, steps int, sum *tl.Summary) { tl.Fatal("not yet") }
+import (
+	"bytes"
+	"crypto/ecdsa"
+	"fmt"
+	"math/rand"
+	"net"
+	"time"
+
+	"github.com/ethereum/go-ethereum/common/mclock"
+	"github.com/ethereum/go-ethereum/p2p/discover/v5wire"
+	"github.com/ethereum/go-ethereum/p2p/enode"
+	"github.com/ethereum/go-ethereum/p2p/enr"
+	"github.com/ethereum/go-ethereum/rlp"
+	tl "verif/harness/tracelib"
+)
+
+type simNode struct {
+	name  string
+	key   *ecdsa.PrivateKey
+	db    *enode.DB
+	ln    *enode.LocalNode
+	clock *mclock.Simulated
+	c     *v5wire.Codec
+	addr  string
+	known map[string]*enode.Node       // records this node has, by node name
+	unk   map[string]*v5wire.Nonce     // nonce of the last unreadable packet from peer
+	got   map[string]*v5wire.Whoareyou // last WHOAREYOU decoded from peer
+}
+
+type wirePkt struct {
+	data     []byte
+	src, dst string
+	msg      v5wire.Packet // the message it carries (nil for WHOAREYOU)
+	kind     string        // "msg" (message or random packet), "way", "hs"
+	tampered bool
+}
+
+type simNet struct {
+	r     *rand.Rand
+	nodes map[string]*simNode
+	order []string
+	wire  []wirePkt
+}
+
+func newSimNet(r *rand.Rand, names []string, knows map[string]map[string]bool) *simNet {
+	sn := &simNet{r: r, nodes: map[string]*simNode{}, order: names}
+	for i, name := range names {
+		n := &simNode{name: name, key: detKey(r), clock: new(mclock.Simulated)}
+		n.db, _ = enode.OpenDB("")
+		n.ln = enode.NewLocalNode(n.db, n.key)
+		n.ln.SetStaticIP(net.IP{10, 0, 0, byte(i + 1)})
+		n.ln.Set(enr.UDP(30303))
+		n.addr = fmt.Sprintf("10.0.0.%d:30303", i+1)
+		n.reset()
+		sn.nodes[name] = n
+	}
+	for _, a := range names {
+		sn.nodes[a].known = map[string]*enode.Node{}
+		for _, b := range names {
+			if a != b && knows[a][b] {
+				sn.nodes[a].known[b] = sn.nodes[b].ln.Node()
+			}
+		}
+	}
+	return sn
+}
+
+func (sn *simNet) close() {
+	for _, n := range sn.nodes {
+		n.db.Close()
+	}
+}
+
+// reset is a restart: a new codec (no sessions, no pending challenges), same identity and record.
+func (n *simNode) reset() {
+	n.c = v5wire.NewCodec(n.ln, n.key, n.clock, nil)
+	n.unk = map[string]*v5wire.Nonce{}
+	n.got = map[string]*v5wire.Whoareyou{}
+}
+
+func (sn *simNet) reqID() []byte {
+	b := make([]byte, 1+sn.r.Intn(8))
+	sn.r.Read(b)
+	return b
+}
+
+func (sn *simNet) makeMsg(kind string) v5wire.Packet {
+	r := sn.r
+	blob := func(n int) []byte { b := make([]byte, n); r.Read(b); return b }
+	switch kind {
+	case "ping":
+		return &v5wire.Ping{ReqID: sn.reqID(), ENRSeq: r.Uint64() >> uint(r.Intn(64))}
+	case "pong":
+		ip := net.IP(blob(4))
+		if r.Intn(2) == 0 {
+			ip = net.IP(blob(16))
+		}
+		return &v5wire.Pong{ReqID: sn.reqID(), ENRSeq: uint64(r.Intn(1000)), ToIP: ip, ToPort: uint16(r.Intn(65536))}
+	case "findnode":
+		d := make([]uint, r.Intn(4))
+		for i := range d {
+			d[i] = uint(r.Intn(257))
+		}
+		return &v5wire.Findnode{ReqID: sn.reqID(), Distances: d}
+	case "nodes":
+		var recs []*enr.Record
+		for _, name := range sn.order {
+			if r.Intn(2) == 0 {
+				recs = append(recs, sn.nodes[name].ln.Node().Record())
+			}
+		}
+		return &v5wire.Nodes{ReqID: sn.reqID(), RespCount: uint8(1 + r.Intn(3)), Nodes: recs}
+	case "talkreq":
+		return &v5wire.TalkRequest{ReqID: sn.reqID(), Protocol: []string{"", "p", "portal-state"}[r.Intn(3)], Message: blob(r.Intn(60))}
+	case "talkresp":
+		return &v5wire.TalkResponse{ReqID: sn.reqID(), Message: blob(r.Intn(60))}
+	}
+	tl.Fatal("unknown message kind %q", kind)
+	return nil
+}
+
+// ---- the codec calls (one per action of Discv5.tla) ----
+
+func (sn *simNet) sendMsg(from, to, kind string) (int, error) {
+	a, b := sn.nodes[from], sn.nodes[to]
+	m := sn.makeMsg(kind)
+	enc, _, err := a.c.Encode(b.ln.ID(), b.addr, m, nil)
+	if err != nil {
+		return 0, err
+	}
+	sn.wire = append(sn.wire, wirePkt{data: append([]byte{}, enc...), src: from, dst: to, msg: m, kind: "msg"})
+	return len(sn.wire), nil
+}
+
+func (sn *simNet) sendWhoareyou(from, to string) (int, bool, error) {
+	a, b := sn.nodes[from], sn.nodes[to]
+	nonce := a.unk[to]
+	if nonce == nil {
+		return 0, false, fmt.Errorf("driver: %s holds no unreadable packet from %s", from, to)
+	}
+	w := &v5wire.Whoareyou{Nonce: *nonce}
+	sn.r.Read(w.IDNonce[:])
+	knows := a.known[to] != nil
+	if knows {
+		w.Node = a.known[to]
+		w.RecordSeq = w.Node.Seq()
+	}
+	enc, _, err := a.c.Encode(b.ln.ID(), b.addr, w, nil)
+	if err != nil {
+		return 0, knows, err
+	}
+	delete(a.unk, to)
+	sn.wire = append(sn.wire, wirePkt{data: append([]byte{}, enc...), src: from, dst: to, kind: "way"})
+	return len(sn.wire), knows, nil
+}
+
+func (sn *simNet) sendHandshake(from, to, kind string) (int, bool, error) {
+	a, b := sn.nodes[from], sn.nodes[to]
+	ch := a.got[to]
+	if ch == nil || a.known[to] == nil {
+		return 0, false, fmt.Errorf("driver: %s cannot answer a challenge of %s", from, to)
+	}
+	cpy := *ch
+	cpy.Node = a.known[to]
+	withRecord := cpy.RecordSeq < a.ln.Node().Seq()
+	m := sn.makeMsg(kind)
+	enc, _, err := a.c.Encode(b.ln.ID(), b.addr, m, &cpy)
+	if err != nil {
+		return 0, withRecord, err
+	}
+	delete(a.got, to)
+	sn.wire = append(sn.wire, wirePkt{data: append([]byte{}, enc...), src: from, dst: to, msg: m, kind: "hs"})
+	return len(sn.wire), withRecord, nil
+}
+
+// Packet layout (discv5-wire): masking-iv 16 | static header 23 (protocol-id 6, version 2, flag 1,
+// nonce 12, authdata-size 2) | authdata | message.
+func (sn *simNet) tamper(i int, class string) (int, error) {
+	p := sn.wire[i-1]
+	if p.tampered {
+		return 0, fmt.Errorf("driver: packet %d is already a tampered copy", i)
+	}
+	d := append([]byte{}, p.data...)
+	var lo, hi int
+	switch class {
+	case "iv":
+		lo, hi = 0, 16
+	case "nonce":
+		lo, hi = 25, 37
+	case "src": // source id: first 32 bytes of the authdata of message and handshake packets
+		lo, hi = 39, 71
+	case "idn": // id-nonce: first 16 bytes of the WHOAREYOU authdata
+		lo, hi = 39, 55
+	case "sig": // id-signature follows src-id(32) sig-size(1) eph-key-size(1)
+		lo, hi = 73, 137
+	case "ct": // the GCM tag at the end of the packet
+		lo, hi = len(d)-16, len(d)
+	default:
+		return 0, fmt.Errorf("driver: unknown tamper class %q", class)
+	}
+	if hi > len(d) || lo < 0 {
+		return 0, fmt.Errorf("driver: packet %d too short for tamper class %s", i, class)
+	}
+	d[lo+sn.r.Intn(hi-lo)] ^= 1 << uint(sn.r.Intn(8))
+	sn.wire = append(sn.wire, wirePkt{data: d, src: p.src, dst: p.dst, msg: p.msg, kind: p.kind, tampered: true})
+	return len(sn.wire), nil
+}
+
+// deliver hands packet i to node `to` as coming from the address of its original sender and
+// classifies what Decode reports.
+func (sn *simNet) deliver(i int, to string) (string, string) {
+	p := sn.wire[i-1]
+	n := sn.nodes[to]
+	src := sn.nodes[p.src]
+	id, node, pkt, err := n.c.Decode(p.data, src.addr)
+	if err != nil {
+		return "err", err.Error()
+	}
+	switch q := pkt.(type) {
+	case *v5wire.Unknown:
+		if id == src.ln.ID() {
+			nn := q.Nonce
+			n.unk[p.src] = &nn
+		}
+		return "unknown", ""
+	case *v5wire.Whoareyou:
+		n.got[p.src] = q
+		return "way", ""
+	}
+	// an authenticated message: must be the one that was sent, from the node that sent it
+	detail := ""
+	if id != src.ln.ID() {
+		detail = "source id differs from the sender's"
+	} else if p.msg == nil {
+		detail = "message decoded from a packet that carries none"
+	} else {
+		want, _ := rlp.EncodeToBytes(p.msg)
+		have, _ := rlp.EncodeToBytes(pkt)
+		if pkt.Kind() != p.msg.Kind() || !bytes.Equal(want, have) || !bytes.Equal(pkt.RequestID(), p.msg.RequestID()) {
+			detail = fmt.Sprintf("message differs: sent %s %x, got %s %x", p.msg.Name(), want, pkt.Name(), have)
+		}
+	}
+	if node != nil {
+		if node.ID() != src.ln.ID() {
+			detail = "handshake node differs from the sender"
+		}
+		n.known[p.src] = node
+		return "hsmsg", detail
+	}
+	return "msg", detail
+}
+
+func (sn *simNet) expire(name string) { sn.nodes[name].clock.Run(2 * time.Second) }
+
+// ---------------------------------------------------------------- R: behaviours from TLC
+
+type Act struct {
+	Op    string                     `json:"op"`
+	N     string                     `json:"n"`
+	P     string                     `json:"p"`
+	M     string                     `json:"m"`
+	I     int                        `json:"i"`
+	T     string                     `json:"t"`
+	Out   string                     `json:"out"`
+	Knows map[string]map[string]bool `json:"knows,omitempty"`
+}
+
+func names(knows map[string]map[string]bool) []string {
+	var out []string
+	for _, c := range []string{"A", "B", "C", "D"} {
+		if _, ok := knows[c]; ok {
+			out = append(out, c)
+		}
+	}
+	return out
+}
+
+func runSessions(path string, sum *tl.Summary) {
+	var behs [][]Act
+	tl.ReadJSON(path, &behs)
+	if len(behs) == 0 {
+		tl.Fatal("no behaviours in %s", path)
+	}
+	r := tl.Rand(sum.Seed)
+	seen := map[string]bool{}
+	for bi, beh := range behs {
+		if len(beh) == 0 || beh[0].Op != "init" {
+			tl.Fatal("behaviour %d does not start with init", bi)
+		}
+		sn := newSimNet(r, names(beh[0].Knows), beh[0].Knows)
+		shape := ""
+		for si, a := range beh[1:] {
+			fail := func(desc string) {
+				sum.Violate(fmt.Sprintf("discv5 behaviour %d step %d (%s %s->%s i=%d t=%s): %s", bi, si+1, a.Op, a.N, a.P, a.I, a.T, desc),
+					tl.M{"behaviour": beh[:si+2], "step": si + 1})
+			}
+			stop := false
+			switch a.Op {
+			case "msg":
+				i, err := sn.sendMsg(a.N, a.P, a.M)
+				if err != nil || i != a.I {
+					fail(fmt.Sprintf("Encode failed or packet index %d != %d: %v", i, a.I, err))
+					stop = true
+				}
+			case "way":
+				i, knows, err := sn.sendWhoareyou(a.N, a.P)
+				if err != nil || i != a.I {
+					fail(fmt.Sprintf("WHOAREYOU could not be sent (index %d, want %d): %v", i, a.I, err))
+					stop = true
+				} else if knows != (a.Out == "known") {
+					fail("driver and specification disagree on the records known")
+					stop = true
+				}
+			case "hs":
+				i, rec, err := sn.sendHandshake(a.N, a.P, a.M)
+				if err != nil || i != a.I {
+					fail(fmt.Sprintf("handshake could not be sent (index %d, want %d): %v", i, a.I, err))
+					stop = true
+				} else if rec != (a.Out == "record") {
+					fail(fmt.Sprintf("handshake packet encloses record=%v, specification %s", rec, a.Out))
+				}
+			case "tamper":
+				if _, err := sn.tamper(a.I, a.T); err != nil {
+					tl.Fatal("%v", err)
+				}
+			case "deliver":
+				got, detail := sn.deliver(a.I, a.N)
+				sum.Count("deliver:" + got)
+				if got != a.Out {
+					fail(fmt.Sprintf("Decode reports %q (%s), specification %q", got, detail, a.Out))
+					stop = true
+				} else if (got == "msg" || got == "hsmsg") && detail != "" {
+					fail("accepted message is not the one sent: " + detail)
+				}
+			case "reset":
+				sn.nodes[a.N].reset()
+			case "expire":
+				sn.expire(a.N)
+			default:
+				tl.Fatal("unknown action %q", a.Op)
+			}
+			sum.Steps++
+			shape += a.Op[:1] + a.Out + a.T + "|"
+			if stop {
+				break
+			}
+		}
+		sn.close()
+		sum.Evaluations++
+		if !seen[shape] {
+			seen[shape] = true
+			sum.Distinct++
+		}
+		if bi%97 == 0 {
+			sum.Sample(tl.M{"behaviour": bi, "shape": shape})
+		}
+	}
+	sum.Rule = "behaviours sampled by TLC from MCDiscv5 (guided simulation) executed step by step on real v5wire codecs: every Decode outcome class, the enclosed record, and the identity of every accepted message are compared with the specification; distinct = distinct (action, outcome, tamper) sequences"
+}
+
+// ---------------------------------------------------------------- V: random schedules recorded from the real codecs
+
+func runSessRecord(path string, seed int64, ntraces, steps int, sum *tl.Summary) {
+	r := tl.Rand(seed)
+	tr := tl.NewTrace(path)
+	defer tr.Close()
+	nodes := []string{"A", "B", "C"}
+	kinds := []string{"ping", "pong", "findnode", "nodes", "talkreq", "talkresp"}
+	classes := map[string][]string{"msg": {"iv", "nonce", "src", "ct"}, "way": {"iv", "nonce", "idn"}, "hs": {"iv", "nonce", "src", "sig", "ct"}}
+	shapes := map[string]bool{}
+	for t := 0; t < ntraces; t++ {
+		knows := map[string]map[string]bool{}
+		for _, a := range nodes {
+			knows[a] = map[string]bool{}
+			for _, b := range nodes {
+				knows[a][b] = a != b && r.Intn(3) != 0
+			}
+		}
+		sn := newSimNet(r, nodes, knows)
+		tr.Emit(tl.M{"op": "init", "n": "", "p": "", "m": "", "i": 0, "t": "", "out": "", "knows": knows})
+		emit := func(op, n, p, m string, i int, t, out string) {
+			tr.Emit(tl.M{"op": op, "n": n, "p": p, "m": m, "i": i, "t": t, "out": out, "knows": map[string]any{}})
+			sum.Count(op + ":" + out)
+		}
+		undelivered := []int{}
+		shape := ""
+		for s := 0; s < steps; s++ {
+			// pending packets are delivered (mostly to their destination) before anything else happens
+			if len(undelivered) > 0 && r.Intn(8) != 0 {
+				i := undelivered[0]
+				undelivered = undelivered[1:]
+				to := sn.wire[i-1].dst
+				if r.Intn(6) == 0 {
+					to = nodes[r.Intn(len(nodes))] // redirected
+				}
+				out, detail := sn.deliver(i, to)
+				if detail != "" && (out == "msg" || out == "hsmsg") {
+					out += ":corrupt" // an accepted message that is not the one sent: never allowed by the specification
+				}
+				emit("deliver", to, sn.wire[i-1].src, "", i, "", out)
+				shape += "d" + out
+				continue
+			}
+			a, b := nodes[r.Intn(2)], nodes[r.Intn(2)] // C only receives redirected packets
+			if a == b {
+				continue
+			}
+			na := sn.nodes[a]
+			switch c := r.Intn(20); {
+			case c < 5 && na.got[b] != nil && na.known[b] != nil:
+				k := kinds[r.Intn(len(kinds))]
+				i, rec, err := sn.sendHandshake(a, b, k)
+				if err != nil {
+					tl.Fatal("%v", err)
+				}
+				emit("hs", a, b, k, i, "", map[bool]string{true: "record", false: "norecord"}[rec])
+				undelivered = append(undelivered, i)
+				shape += "h"
+			case c < 10 && na.unk[b] != nil:
+				i, kn, err := sn.sendWhoareyou(a, b)
+				if err != nil {
+					tl.Fatal("%v", err)
+				}
+				emit("way", a, b, "", i, "", map[bool]string{true: "known", false: "unknownnode"}[kn])
+				undelivered = append(undelivered, i)
+				shape += "w"
+			case c < 14 && na.known[b] != nil:
+				k := kinds[r.Intn(len(kinds))]
+				i, err := sn.sendMsg(a, b, k)
+				if err != nil {
+					tl.Fatal("%v", err)
+				}
+				emit("msg", a, b, k, i, "", "")
+				undelivered = append(undelivered, i)
+				shape += "m"
+			case c < 17 && len(sn.wire) > 0:
+				// tamper with one of the recent packets and deliver the copy
+				i := len(sn.wire) - r.Intn(min(3, len(sn.wire)))
+				cl := classes[sn.wire[i-1].kind]
+				tc := cl[r.Intn(len(cl))]
+				j, err := sn.tamper(i, tc)
+				if err != nil {
+					continue
+				}
+				emit("tamper", "", "", "", i, tc, "")
+				undelivered = append(undelivered, j)
+				shape += "t" + tc
+			case c < 18 && len(sn.wire) > 0:
+				// replay an old packet
+				i := 1 + r.Intn(len(sn.wire))
+				to := sn.wire[i-1].dst
+				out, detail := sn.deliver(i, to)
+				if detail != "" && (out == "msg" || out == "hsmsg") {
+					out += ":corrupt"
+				}
+				emit("deliver", to, sn.wire[i-1].src, "", i, "", out)
+				shape += "r" + out
+			case c == 18:
+				sn.nodes[a].reset()
+				emit("reset", a, "", "", 0, "", "")
+				shape += "R"
+			case c == 19:
+				sn.expire(a)
+				emit("expireall", a, "", "", 0, "", "")
+				shape += "E"
+			}
+		}
+		sn.close()
+		sum.Traces++
+		sum.Evaluations++
+		if !shapes[shape] {
+			shapes[shape] = true
+			sum.Distinct++
+		}
+		if t < 2 {
+			sum.Sample(tl.M{"trace": t, "shape": shape})
+		}
+	}
+	sum.Steps = tr.N
+	sum.Rule = "seeded random schedules (send / WHOAREYOU / handshake / tamper / redirect / replay / restart / timeout) on three real v5wire codecs, every Decode outcome recorded; distinct = distinct schedule shapes"
+}
